@@ -170,32 +170,43 @@ func c20Case(ops []c20Op, stream, name string) *Case {
 type c20Abs struct {
 	parent *c20Abs
 	own    []c20Item
+	ver    int // number of non-empty appends to this statement
+}
+
+// stamp: the number of non-empty appends to the statement and to everything it was cloned
+// from.  The counters only grow, so two stamps of one variable are equal exactly when nothing
+// was appended to it or to one of its originals in between (this replaces marking every
+// dependent variable at every append, which is cubic in the depth of a chain of clones).
+func (a *c20Abs) stamp() int {
+	n := 0
+	for x := a; x != nil; x = x.parent {
+		n += x.ver
+	}
+	return n
 }
 
 // text is what the statement renders as before formatting: the non-null items joined by
 // single spaces, the parent (as it is now) counting as one item.
 func (a *c20Abs) text() (txt string, null bool) {
-	var parts []string
-	if a.parent != nil {
-		if t, n := a.parent.text(); !n {
-			parts = append(parts, t)
-		}
-	}
-	for _, it := range a.own {
-		if !it.Null {
-			parts = append(parts, it.Text)
-		}
-	}
-	return strings.Join(parts, " "), len(parts) == 0
-}
-
-func (a *c20Abs) dependsOn(b *c20Abs) bool {
+	// the chain of originals, outermost first (a loop: chains are thousands of levels deep in
+	// the stream sizes, and every level's text starts with the text of the level above)
+	var chain []*c20Abs
 	for x := a; x != nil; x = x.parent {
-		if x == b {
-			return true
-		}
+		chain = append(chain, x)
 	}
-	return false
+	for i := len(chain) - 1; i >= 0; i-- {
+		var parts []string
+		if i < len(chain)-1 && !null {
+			parts = append(parts, txt)
+		}
+		for _, it := range chain[i].own {
+			if !it.Null {
+				parts = append(parts, it.Text)
+			}
+		}
+		txt, null = strings.Join(parts, " "), len(parts) == 0
+	}
+	return txt, null
 }
 
 type c20Fmt struct {
@@ -231,26 +242,27 @@ func (c20) Oracle(c *Case, got []hist.Obs) string {
 	var vars []*c20Abs
 	type seen struct {
 		obs   hist.Obs
-		valid bool
+		set   bool
+		stamp int
 	}
 	var last []seen
+	var from []int // the variable a clone was made from (-1: not a clone)
+	valid := func(j int) bool { return last[j].set && last[j].stamp == vars[j].stamp() }
 	k := 0
 	for i, op := range ops {
 		switch op.Kind {
 		case "new":
 			vars = append(vars, &c20Abs{})
 			last = append(last, seen{})
+			from = append(from, -1)
 		case "clone":
 			vars = append(vars, &c20Abs{parent: vars[op.From]})
 			last = append(last, seen{})
+			from = append(from, op.From)
 		case "append":
 			vars[op.V].own = append(vars[op.V].own, op.Items...)
 			if len(op.Items) > 0 {
-				for j := range vars {
-					if vars[j].dependsOn(vars[op.V]) {
-						last[j].valid = false
-					}
-				}
+				vars[op.V].ver++ // every variable cloned (directly or not) from this one has a new stamp
 			}
 		case "render":
 			if k >= len(got) {
@@ -263,27 +275,25 @@ func (c20) Oracle(c *Case, got []hist.Obs) string {
 			switch {
 			case g.Kind == "write" && f.ok:
 				if g.Out != f.out {
-					return fmt.Sprintf("step %d: variable %d renders %q, its list-model value is %q", i, op.V, g.Out, f.out)
+					return fmt.Sprintf("step %d: variable %d renders %q, its list-model value is %q", i, op.V, c20Short(g.Out), c20Short(f.out))
 				}
 			case g.Kind == "fmterr" && !f.ok:
 				if g.Out != raw {
-					return fmt.Sprintf("step %d: variable %d renders (unformattable) %q, its list-model value is %q", i, op.V, g.Out, raw)
+					return fmt.Sprintf("step %d: variable %d renders (unformattable) %q, its list-model value is %q", i, op.V, c20Short(g.Out), c20Short(raw))
 				}
 			default:
-				return fmt.Sprintf("step %d: variable %d: got %s, list-model value %q (formats: %v)", i, op.V, g, raw, f.ok)
+				return fmt.Sprintf("step %d: variable %d: got %s, list-model value %q (formats: %v)", i, op.V, c20Short(g.String()), c20Short(raw), f.ok)
 			}
-			if last[op.V].valid && !hist.SameObs(last[op.V].obs, g) {
-				return fmt.Sprintf("step %d: output of variable %d changed from %s to %s although nothing was appended to it or to its originals", i, op.V, last[op.V].obs, g)
+			if valid(op.V) && !hist.SameObs(last[op.V].obs, g) {
+				return fmt.Sprintf("step %d: output of variable %d changed from %s to %s although nothing was appended to it or to its originals", i, op.V, c20Short(last[op.V].obs.String()), c20Short(g.String()))
 			}
 			if p := vars[op.V].parent; p != nil && len(vars[op.V].own) == 0 {
 				// an unmodified clone renders exactly like its original (rendered before in this batch?)
-				for j := range vars {
-					if vars[j] == p && last[j].valid && !hist.SameObs(last[j].obs, g) {
-						return fmt.Sprintf("step %d: unmodified clone %d renders %s, its original %d renders %s", i, op.V, g, j, last[j].obs)
-					}
+				if j := from[op.V]; vars[j] == p && valid(j) && !hist.SameObs(last[j].obs, g) {
+					return fmt.Sprintf("step %d: unmodified clone %d renders %s, its original %d renders %s", i, op.V, c20Short(g.String()), j, c20Short(last[j].obs.String()))
 				}
 			}
-			last[op.V] = seen{g, true}
+			last[op.V] = seen{g, true, vars[op.V].stamp()}
 		}
 	}
 	if k != len(got) {
@@ -606,7 +616,10 @@ func (c20) Generate(r *rand.Rand, t string) []*Case {
 	// originals whose top level holds a case clause with chains of unmodified clones; clones as
 	// items inside groups of sibling clones (c20_snap.go)
 	out = append(out, c20sGenerate(r, t)...)
-	return out
+	// large histories (c20_sizes.go): generated last (the draws of the older streams are
+	// unchanged), evaluated first (the model needs seconds for the largest ones: its co-processes
+	// take the lines in order, so they overlap with everything else)
+	return append(c20SizesGenerate(r, t), out...)
 }
 
 func c20Letters(prefix string, n int, chained bool) []c20Item {
@@ -683,6 +696,9 @@ func (c20) Regressions() []*Case {
 func (c20) Shrink(c *Case) []*Case {
 	if c.Meta["kind"] == "snap" {
 		return c20sShrink(c)
+	}
+	if _, ok := c.Meta["size"].(c20Size); ok {
+		return c20SizesShrink(c) // one candidate per operation would be thousands of large histories
 	}
 	ops := c.Meta["ops"].([]c20Op)
 	var out []*Case
